@@ -6,7 +6,7 @@ export CARGO_NET_OFFLINE=true
 mkdir -p build work evidence/replays
 python3 tools/rs2v.py || echo "setup: translator reported a broken tie (checks will report it)"
 python3 tools/mkproject.py
-( cd coq && coq_makefile -f _CoqProject -o Makefile >/dev/null && timeout 3000 make -j16 ) 2>&1 | tail -5
+( cd coq && coq_makefile -f _CoqProject -o Makefile >/dev/null && timeout 3000 make -k -j16 ) 2>&1 | tail -5
 cp /repo/Cargo.lock harness/Cargo.lock 2>/dev/null
 ( cd harness && timeout 3000 cargo build --offline --bins ) 2>&1 | tail -3
 python3 - <<'PY'
